@@ -796,6 +796,28 @@ func registerMatchers() {
 		v, ok := modelReplace(obj, st, protoDev{findAll: true, dollar: true})
 		return ok && v == f.Actual
 	})
+	// --- split never separates the two code units of a surrogate pair (deviation model)
+	run.RegisterMatcher("c10.split-whole-pairs", func(f *run.Failure) bool {
+		in, ok := histInput(f, "hist:split", "hist:splitStr")
+		if !ok {
+			return false
+		}
+		obj, st, ok := histState(in)
+		if !ok || asciiOnly(st.S) {
+			return false
+		}
+		var lim *float64
+		if st.Lim != nil {
+			x := float64(*st.Lim)
+			lim = &x
+		}
+		sep := refre.Separator{Re: obj.Re, WholePairs: true}
+		if st.Op == "splitStr" {
+			sep = refre.Separator{Str: refre.Units(st.Q), WholePairs: true}
+		}
+		r, err := refre.Split(refre.Units(st.S), sep, lim)
+		return err == nil && showCaps(r) == f.Actual
+	})
 	run.RegisterMatcher("c10.split-findall", func(f *run.Failure) bool {
 		in, ok := histInput(f, "hist:split")
 		if !ok {
